@@ -6,6 +6,7 @@ import (
 	"runtime"
 	"sort"
 	"strings"
+	"time"
 
 	hessian "github.com/vogo/gohessian"
 
@@ -484,6 +485,86 @@ func ladder(kind int, depth int) []byte {
 	return b
 }
 
+// DagHolder receives shared-container chains in fields of interface-typed container types.
+type DagHolder struct {
+	M  map[string]interface{}
+	L  []interface{}
+	MI map[interface{}]interface{}
+}
+
+// dag renders a chain of depth containers in which every level holds the next one twice: once inline and once
+// by back-reference (a well-formed message of linear size that denotes 2^depth paths). ord is the ordinal
+// of the first level.
+func Dag(kind, depth, ord int) []byte { return dag(kind, depth, ord) }
+
+func dag(kind, depth, ord int) []byte {
+	var b []byte
+	var closing [][]byte
+	for i := 0; i < depth; i++ {
+		last := i == depth-1
+		if kind == 0 {
+			b = append(b, 0x7a)
+			if last {
+				b = append(b, 0x90, 0x90)
+			} else {
+				closing = append(closing, append([]byte{0x51}, be32(int32(ord+i+1))...))
+			}
+		} else {
+			b = append(b, 'H', 0x01, 'a')
+			if last {
+				b = append(b, 0x90, 'Z')
+			} else {
+				closing = append(closing, append(append([]byte{0x01, 'b', 0x51}, be32(int32(ord+i+1))...), 'Z'))
+			}
+		}
+	}
+	for i := len(closing) - 1; i >= 0; i-- {
+		b = append(b, closing[i]...)
+	}
+	return b
+}
+
+// blockedFor runs fn on its own goroutine and reports whether it is still blocked in a synchronisation
+// primitive (lock, channel) on several looks one second apart: nothing else in this worker can release it.
+func blockedFor(fn func()) (blocked bool, state string) {
+	done := make(chan struct{})
+	go func() {
+		defer close(done)
+		c14probe(fn)
+	}()
+	strikes := 0
+	for {
+		select {
+		case <-done:
+			return false, ""
+		case <-time.After(time.Second):
+		}
+		buf := make([]byte, 1<<20)
+		buf = buf[:runtime.Stack(buf, true)]
+		st := ""
+		for _, g := range strings.Split(string(buf), "\n\n") {
+			if strings.Contains(g, "c14probe") {
+				if i := strings.Index(g, "["); i >= 0 {
+					if j := strings.Index(g[i:], "]"); j > 0 {
+						st = g[i+1 : i+j]
+					}
+				}
+			}
+		}
+		if strings.HasPrefix(st, "sync.") || strings.HasPrefix(st, "semacquire") || strings.HasPrefix(st, "chan ") || strings.HasPrefix(st, "select") {
+			strikes++
+			if strikes >= 5 {
+				return true, strings.SplitN(st, ",", 2)[0]
+			}
+		} else {
+			strikes = 0
+		}
+	}
+}
+
+//go:noinline
+func c14probe(fn func()) { fn() }
+
 var ladderNames = []string{"x79 lists", "x57 lists", "H maps", "typed lists", "objects with a self-typed field", "x79 lists ending in an unknown tag", "x57 lists ending in an unknown tag", "H maps ending in an unknown tag"}
 
 func init() {
@@ -629,6 +710,100 @@ func init() {
 				c.Cover("cycles")
 				c.Sample("C x05 SlI32 x91 x01 l x60 x79 Q x91 : a []int32 field fed a list that contains itself")
 			}})
+			// shared-container chains: linear-size messages that denote exponentially many paths
+			us = append(us, core.Unit{Name: "dags", Cost: 100, Run: func(c *core.Ctx) {
+				str := func(s string) []byte { return append([]byte{byte(len(s))}, s...) }
+				tm := map[string]reflect.Type{"DagHolder": reflect.TypeOf(DagHolder{})}
+				for kind, kn := range []string{"lists", "maps"} {
+					for _, place := range []string{"top level", "field m inline", "field l inline", "field mi inline", "field m by reference", "field l by reference", "field mi by reference"} {
+						for depth := 1; depth <= 64; depth++ {
+							if !c.Begin() {
+								continue
+							}
+							c.NontrivialN(1)
+							c.Res.States++
+							var b []byte
+							f := strings.Fields(place)
+							switch {
+							case place == "top level":
+								b = dag(kind, depth, 0)
+							case f[2] == "inline":
+								b = append(append(append([]byte{'C'}, str("DagHolder")...), 0x91), str(f[1])...)
+								b = append(append(b, 0x60), dag(kind, depth, 1)...)
+							default:
+								b = append(append(append([]byte{'C'}, str("DagHolder")...), 0x91), str(f[1])...)
+								b = append(append(b, 0x7a), dag(kind, depth, 1)...)
+								b = append(b, 0x60, 0x51, 0x91)
+							}
+							if _, err := rh.ParseOne(b); err != nil {
+								c.Report(&core.Violation{Stage: "selfcheck", Kind: "harness", Shape: "R1", Message: err.Error(), Case: place})
+								break
+							}
+							desc := fmt.Sprintf("%s: %d %s each holding the next one inline and by back-reference (%d bytes)", place, depth, kn, len(b))
+							out := runHostile(c, 0, b, guard.NewReader(b), tm, desc, "dags", true)
+							c.Outcome(out)
+							if out != "returned" {
+								break // deeper chains would only take exponentially longer
+							}
+							if out = runHostile(c, 2, b, nil, tm, desc+" (ToObject)", "dags", true); out != "returned" {
+								break
+							}
+						}
+					}
+				}
+				c.Cover("dags")
+			}})
+			// process-wide accumulation: hundreds of thousands of distinct class, field and type names over many
+			// frames and decoders; afterwards an ordinary message must still decode
+			us = append(us, core.Unit{Name: "name-flood", Cost: 100, Run: func(c *core.Ctx) {
+				frames := tierPick(tier, 200, 1200)
+				str := func(s string) []byte { return append([]byte{byte(len(s))}, s...) }
+				n := 0
+				for f := 0; f < frames; f++ {
+					if !c.Begin() {
+						continue
+					}
+					c.NontrivialN(1)
+					c.Res.States++
+					var b []byte
+					for len(b) < 64000 {
+						n++
+						switch f % 3 {
+						case 0: // class definition with two fresh field names, then an instance
+							b = append(append(append(b, 'C'), str(fmt.Sprintf("c.N%07d", n))...), 0x92)
+							b = append(append(b, str(fmt.Sprintf("f%07da", n))...), str(fmt.Sprintf("f%07db", n))...)
+						case 1: // typed list with a fresh type name
+							b = append(append(append(b, 0x71), str(fmt.Sprintf("[t.N%07d", n))...), 0x90)
+						default: // typed map with a fresh type name
+							b = append(append(append(b, 'M'), str(fmt.Sprintf("m.N%07d", n))...), 'Z')
+						}
+					}
+					desc := fmt.Sprintf("frame %d of %d: 64 KB of values with fresh class / field / type names (%d names so far)", f+1, frames, n)
+					var out string
+					blocked, st := blockedFor(func() {
+						out = runHostile(c, 0, b, guard.NewReader(b), map[string]reflect.Type{}, desc, "name-flood", true)
+					})
+					if !blocked {
+						// an ordinary message on a fresh decoder
+						var v interface{}
+						var err error
+						msg := []byte{'C', 0x05, 'I', 'n', 'n', 'e', 'r', 0x92, 0x01, 'a', 0x01, 's', 0x60, 0x95, 0x02, 'o', 'k'}
+						blocked, st = blockedFor(func() { v, err = hessian.ToObject(msg, map[string]reflect.Type{"Inner": reflect.TypeOf(zoo.Inner{})}) })
+						if in, ok := v.(*zoo.Inner); !blocked && (err != nil || !ok || in.A != 5 || in.S != "ok") {
+							c.Report(&core.Violation{Stage: "decode", Kind: "mismatch", Shape: "name-flood", Message: "an ordinary message no longer decodes after many distinct names were seen", Case: desc, Detail: fmt.Sprint(v, err)})
+							break
+						}
+					}
+					if blocked {
+						c.Report(&core.Violation{Stage: "decode", Kind: "blocked", Shape: "name-flood", Message: "a decode call never returns: blocked in " + st, Case: desc})
+						c.Stop("a decode call blocked; its goroutine cannot be reclaimed")
+						break
+					}
+					c.Outcome(out)
+				}
+				c.Res.Extra["distinct_names_fed"] = int64(n)
+				c.Cover("name-flood")
+			}})
 			// (4) ladders
 			for k := range ladderNames {
 				k := k
@@ -658,7 +833,7 @@ func init() {
 			return us
 		},
 		RequireCover: func(string) []string {
-			return []string{"lazy-full", "lazy-tags", "edit", "amplification", "ladder", "cycles"}
+			return []string{"lazy-full", "lazy-tags", "edit", "amplification", "ladder", "cycles", "dags", "name-flood"}
 		},
 	})
 }
